@@ -1,32 +1,437 @@
 package sym
 
 import (
+	"os"
+	"fmt"
+	"go/types"
+	"sort"
+	"sync"
+
 	"golang.org/x/tools/go/ssa"
 )
 
 // Scheduler: deterministic cooperative scheduling of interpreted goroutines
-// (DESIGN §2.6). Filled in by stage E2; in sequential mode (i.sched == nil)
-// `go` statements are collected and run with rt.RunSpawned.
+// (DESIGN §2.6). Every interpreted goroutine is a real goroutine holding a baton:
+// exactly one runs. Context switches happen only at synchronisation operations;
+// which runnable task proceeds is a decision variable. Exploration is *delay
+// bounded* (Emmi, Qadeer, Rakamaric 2011): the deterministic base scheduler is
+// non-preemptive round-robin; every deviation from it (running the k-th next
+// candidate instead of the first) costs k delays, and at most MaxPreempt delays
+// are spent per path. All schedules within that bound are explored. Virtual time advances only
+// when every task is blocked, to the earliest armed timer.
+
+var traceSched = os.Getenv("GOSYMEX_TRACE") != ""
 
 type task struct {
-	id int
+	id         int
+	wake       chan int // 1 = run, 2 = kill
+	done       bool
+	blocked    bool
+	ready      func() bool
+	what       string
+	isMain     bool
+	quiescing  bool
+	savedFrame *frame
+	savedDepth int
 }
 
-type vtimer struct{}
+type vtimer struct {
+	id       int
+	ch       *vchan
+	armed    bool
+	deadline int64
+	fn       value // AfterFunc callback
+	seq      int
+}
 
 type scheduler struct {
-	i *interpreter
+	i          *interpreter
+	tasks      []*task
+	cur        *task
+	fatal      interface{}
+	preempt    int
+	maxPreempt int
+	wg         sync.WaitGroup
+	maxTasks   int
 }
 
-func newScheduler(i *interpreter) *scheduler { return &scheduler{i: i} }
+func newScheduler(i *interpreter) *scheduler {
+	mp := i.ex.cfg.MaxPreempt
+	if mp < 0 {
+		mp = 0
+	}
+	return &scheduler{i: i, maxPreempt: mp, maxTasks: 24}
+}
 
-func (s *scheduler) runMain(f func())                                          { f() }
-func (s *scheduler) teardown()                                                 {}
-func (s *scheduler) spawn(fr *frame, instr *ssa.Go, fn value, args []value)    { panic(s.i.unsupported("scheduler: go")) }
-func (s *scheduler) send(ch *vchan, v value)                                   { panic(s.i.unsupported("scheduler: send")) }
-func (s *scheduler) recv(ch *vchan) (value, bool)                              { panic(s.i.unsupported("scheduler: recv")) }
-func (s *scheduler) recvNow(ch *vchan) (value, bool)                           { panic(s.i.unsupported("scheduler: recv")) }
-func (s *scheduler) sendNow(ch *vchan, v value)                                { panic(s.i.unsupported("scheduler: send")) }
-func (s *scheduler) closed(ch *vchan)                                          {}
-func (s *scheduler) yield(what string)                                         {}
-func (s *scheduler) parkSelect(chans []*vchan, instr *ssa.Select)              { panic(s.i.unsupported("scheduler: select")) }
+func (s *scheduler) runMain(f func()) {
+	main := &task{id: 0, wake: make(chan int, 1), isMain: true}
+	s.tasks = []*task{main}
+	s.cur = main
+	s.i.curTask = main
+	f()
+}
+
+// teardown kills every parked task goroutine at the end of a path.
+func (s *scheduler) teardown() {
+	for _, t := range s.tasks {
+		if !t.isMain && !t.done {
+			t.done = true
+			t.wake <- 2
+		}
+	}
+	s.wg.Wait()
+}
+
+func (s *scheduler) note(format string, a ...interface{}) {
+	if len(s.i.schedTrace) < 400 {
+		s.i.schedTrace = append(s.i.schedTrace, fmt.Sprintf(format, a...))
+	}
+	if traceSched {
+		fmt.Fprintf(os.Stderr, "[sched] "+format+"\n", a...)
+	}
+}
+
+func (s *scheduler) spawn(fr *frame, instr *ssa.Go, fn value, args []value) {
+	if len(s.tasks) >= s.maxTasks {
+		panic(&pathAbort{kind: abUnwind, msg: fmt.Sprintf("more than %d tasks", s.maxTasks)})
+	}
+	t := &task{id: len(s.tasks), wake: make(chan int, 1)}
+	s.tasks = append(s.tasks, t)
+	pos := instr.Pos()
+	s.note("task %d spawns task %d at %s", s.cur.id, t.id, s.i.pos(pos))
+	s.wg.Add(1)
+	i := s.i
+	go func() {
+		defer s.wg.Done()
+		if cmd := <-t.wake; cmd == 2 {
+			return
+		}
+		defer func() {
+			r := recover()
+			if pa, ok := r.(*pathAbort); ok && pa.kind == abKilled {
+				return
+			}
+			t.done = true
+			if r != nil {
+				// propagate to the main goroutine, which owns the path outcome
+				s.fatal = r
+				s.handToMain()
+				return
+			}
+			s.taskExit(t)
+		}()
+		i.curFrame, i.depth = nil, 0
+		i.call(nil, pos, fn, args)
+	}()
+	s.yield("go")
+}
+
+// handToMain gives the baton to the main task without parking (the caller's goroutine ends).
+func (s *scheduler) handToMain() {
+	main := s.tasks[0]
+	s.cur = main
+	s.i.curTask = main
+	main.wake <- 1
+}
+
+// switchTo hands the baton to next and parks the current task until it is resumed.
+func (s *scheduler) switchTo(next *task) {
+	cur := s.cur
+	if next == cur {
+		return
+	}
+	cur.savedFrame, cur.savedDepth = s.i.curFrame, s.i.depth
+	s.cur = next
+	s.i.curTask = next
+	next.wake <- 1
+	s.park(cur)
+}
+
+func (s *scheduler) park(cur *task) {
+	cmd := <-cur.wake
+	if cmd == 2 {
+		panic(&pathAbort{kind: abKilled})
+	}
+	s.i.curFrame, s.i.depth = cur.savedFrame, cur.savedDepth
+	if cur.isMain && s.fatal != nil {
+		f := s.fatal
+		s.fatal = nil
+		panic(f)
+	}
+}
+
+// runnable lists tasks that can make progress (other than `except`).
+func (s *scheduler) runnable(except *task) []*task {
+	var rs []*task
+	var q *task
+	for _, t := range s.tasks {
+		if t.done || t == except {
+			continue
+		}
+		if t.quiescing {
+			q = t
+			continue
+		}
+		if !t.blocked || t.ready() {
+			rs = append(rs, t)
+		}
+	}
+	if len(rs) == 0 && q != nil {
+		// quiescence: nobody else can run
+		rs = append(rs, q)
+	}
+	return rs
+}
+
+// rrOrder sorts candidate tasks in round-robin order starting after task `after`.
+func (s *scheduler) rrOrder(cands []*task, after *task) []*task {
+	n := len(s.tasks)
+	out := make([]*task, 0, len(cands))
+	for d := 1; d <= n; d++ {
+		id := (after.id + d) % n
+		for _, c := range cands {
+			if c.id == id {
+				out = append(out, c)
+			}
+		}
+	}
+	return out
+}
+
+// pick chooses among candidates given in priority order: index 0 is what the
+// deterministic scheduler does; taking index k costs k delays from the budget.
+func (s *scheduler) pick(cands []*task) *task {
+	if len(cands) == 1 {
+		return cands[0]
+	}
+	left := s.maxPreempt - s.preempt
+	opts := len(cands)
+	if opts > left+1 {
+		opts = left + 1
+	}
+	k := 0
+	if opts > 1 {
+		k = s.i.choose(opts)
+	}
+	s.preempt += k
+	return cands[k]
+}
+
+// yield is a scheduling point at which the current task could continue.
+func (s *scheduler) yield(what string) {
+	if s.preempt >= s.maxPreempt {
+		return
+	}
+	var cands []*task
+	for _, t := range s.runnable(s.cur) {
+		if !t.quiescing {
+			cands = append(cands, t)
+		}
+	}
+	if len(cands) == 0 {
+		return
+	}
+	next := s.pick(append([]*task{s.cur}, s.rrOrder(cands, s.cur)...))
+	if next == s.cur {
+		return
+	}
+	s.note("delay: task %d -> task %d at %s (%s)", s.cur.id, next.id, s.site(), what)
+	s.switchTo(next)
+}
+
+func (s *scheduler) site() string {
+	if s.i.curFrame != nil {
+		return s.i.curFrame.site()
+	}
+	return "?"
+}
+
+// block parks the current task until cond() holds (re-checked by the caller).
+func (s *scheduler) block(cond func() bool, what string) {
+	t := s.cur
+	t.blocked = true
+	t.ready = cond
+	t.what = what
+	defer func() { t.blocked = false; t.ready = nil }()
+	for {
+		if cond() {
+			return
+		}
+		rs := s.runnable(t)
+		if len(rs) == 0 {
+			if s.advanceTime() {
+				continue
+			}
+			s.deadlock()
+		}
+		next := s.pick(s.rrOrder(rs, t))
+		s.note("task %d blocks (%s); run task %d", t.id, what, next.id)
+		s.switchTo(next)
+		// resumed: somebody saw us ready (or time advanced)
+	}
+}
+
+func (s *scheduler) deadlock() {
+	var parts []string
+	for _, t := range s.tasks {
+		if !t.done {
+			parts = append(parts, fmt.Sprintf("task %d blocked on %s", t.id, t.what))
+		}
+	}
+	sort.Strings(parts)
+	ab := &pathAbort{kind: abDeadlock, msg: "all tasks blocked: " + fmt.Sprint(parts)}
+	if s.cur.isMain {
+		panic(ab)
+	}
+	s.fatal = ab
+	cur := s.cur
+	cur.savedFrame, cur.savedDepth = s.i.curFrame, s.i.depth
+	s.handToMain()
+	s.park(cur)
+}
+
+// taskExit runs when a task's function returns: pick the next runnable task (free switch).
+func (s *scheduler) taskExit(t *task) {
+	s.note("task %d exits", t.id)
+	for {
+		rs := s.runnable(t)
+		if len(rs) == 0 {
+			if s.advanceTime() {
+				continue
+			}
+			ab := &pathAbort{kind: abDeadlock, msg: "all remaining tasks blocked after a task exit"}
+			s.fatal = ab
+			s.handToMain()
+			return
+		}
+		next := s.pick(s.rrOrder(rs, t))
+		s.cur = next
+		s.i.curTask = next
+		next.wake <- 1
+		return
+	}
+}
+
+// quiesce parks main until no other task can run (virtual time does not advance).
+func (s *scheduler) quiesce() {
+	t := s.cur
+	for {
+		rs := s.runnable(t)
+		if len(rs) == 0 {
+			return
+		}
+		t.quiescing = true
+		t.what = "quiesce"
+		next := s.pick(s.rrOrder(rs, t))
+		s.switchTo(next)
+		t.quiescing = false
+	}
+}
+
+// advanceTime moves the virtual clock to the earliest armed timer and fires it.
+func (s *scheduler) advanceTime() bool {
+	return s.i.fireNextTimer()
+}
+
+// ---- channels under the scheduler ----
+
+func (s *scheduler) send(ch *vchan, v value) {
+	s.yield("chan send")
+	if ch == nil {
+		s.block(func() bool { return false }, "send on nil channel")
+	}
+	for {
+		if ch.closed {
+			panic(s.i.runtimeError("send on closed channel"))
+		}
+		if len(ch.buf) < ch.cap {
+			ch.buf = append(ch.buf, copyVal(v))
+			return
+		}
+		if ch.cap == 0 {
+			// rendezvous: park with the value until a receiver takes it
+			w := &sendWait{t: s.cur, v: copyVal(v)}
+			ch.sendq = append(ch.sendq, w)
+			s.block(func() bool { return w.done || ch.closed }, fmt.Sprintf("send on chan %d", ch.id))
+			if w.done {
+				return
+			}
+			continue
+		}
+		s.block(func() bool { return len(ch.buf) < ch.cap || ch.closed }, fmt.Sprintf("send on chan %d", ch.id))
+	}
+}
+
+func (s *scheduler) takeFromSendq(ch *vchan) (value, bool) {
+	for len(ch.sendq) > 0 {
+		w := ch.sendq[0]
+		ch.sendq = ch.sendq[1:]
+		if !w.done {
+			w.done = true
+			return w.v, true
+		}
+	}
+	return nil, false
+}
+
+func (s *scheduler) recvNow(ch *vchan) (value, bool) {
+	if len(ch.buf) > 0 {
+		v := ch.buf[0]
+		ch.buf = ch.buf[1:]
+		return v, true
+	}
+	if v, ok := s.takeFromSendq(ch); ok {
+		return v, true
+	}
+	return nil, false // closed
+}
+
+func (s *scheduler) recv(ch *vchan) (value, bool) {
+	s.yield("chan recv")
+	if ch == nil {
+		s.block(func() bool { return false }, "receive from nil channel")
+	}
+	for !s.i.recvReady(ch) {
+		s.block(func() bool { return s.i.recvReady(ch) }, fmt.Sprintf("recv on chan %d", ch.id))
+	}
+	return s.recvNow(ch)
+}
+
+func (s *scheduler) sendNow(ch *vchan, v value) {
+	ch.buf = append(ch.buf, copyVal(v))
+}
+
+func (s *scheduler) closed(ch *vchan) {}
+
+func (s *scheduler) parkSelect(chans []*vchan, instr *ssa.Select) {
+	i := s.i
+	fr := i.curFrame
+	cond := func() bool {
+		for k, st := range instr.States {
+			ch := chans[k]
+			if st.Dir == types.RecvOnly {
+				if i.recvReady(ch) {
+					return true
+				}
+			} else if i.sendReady(ch) {
+				return true
+			}
+		}
+		return false
+	}
+	s.block(cond, "select at "+i.pos(instr.Pos()))
+	i.curFrame = fr
+}
+
+func (i *interpreter) numTasksLive() int {
+	if i.sched == nil {
+		return 1
+	}
+	n := 0
+	for _, t := range i.sched.tasks {
+		if !t.done {
+			n++
+		}
+	}
+	return n
+}
